@@ -9,7 +9,7 @@ PROP = dict(
     rule=("One in-process HttpServer subclass (concurrent mode) on 127.0.0.1:0 and, when the tree can bind it, [::1]:0 (ports read back) lives for the "
           "whole process. Every exchange is a generated spec kept in a mutex-protected table shared with the handler; the request path carries "
           "the spec id; the handler compares method, percent-decoded path, every query value, every header (looked up in a different letter case) "
-          "and the body bytes with the spec and produces the spec's response (put(ByteArray) / put(String) / put(Var) / put(File) / "
+          "and the body bytes with the spec and produces the spec's response (put(ByteArray) / put(String) / put(Var) / put(File) / serveFile() of a file below the web root with a set modification time, optionally with If-Modified-Since (IMF-fixdate before / 2 s before / 1 s before / equal to / after the mtime: 304 exactly when mtime <= date + 1 s; RFC 850 form, asctime form and non-date text are ignored by the unchanged library: 200 + file; also combined with Range) / "
           "setHeader(Content-Length)+write() in pieces / setHeader(Transfer-Encoding: chunked)+write() in pieces or in ONE call up to 512 KiB, read until the connection ends (request carries Connection: close; de-chunked by the library client and by the reference reader) / nothing); the client compares status code, headers, body bytes (json() for Var bodies; "
           "206 + Content-Range + exact slice for ranges) and its own token. Clients: Http::request, get/post/put/patch/delet with ByteArray, String, "
           "Var and File bodies, Http::download and Http::upload (plain and multipart), and a raw-socket client from an independent HTTP "
@@ -24,7 +24,7 @@ PROP = dict(
           "client on one kept-alive connection. rapidcheck parts: general exchanges (methods GET/POST/PUT/PATCH/DELETE/custom tokens, paths with "
           "arbitrary non-NUL bytes percent-encoded, 0-6 query pairs, 0-12 request and response headers with token names and printable values up to "
           "6000 bytes, status 200-599, bodies of arbitrary bytes / CR-LF-NUL-dense / HTTP look-alike text), file parts (ranges near block edges "
-          "of files up to 300 KB), JSON parts (put(Var)/json() in both directions and raw JSON text to request.json(); the top-level value is an "
+          "of files up to 300 KB), JSON parts (numbers include reals that need 17 significant digits - thirds, 0.1+0.2, microsecond timestamps, random bit patterns, 1e-300..1e300 - and are compared bit for bit; put(Var)/json() in both directions and raw JSON text to request.json(); the top-level value is an "
           "object or array, also empty, or a single value: false, true, 0, negative and large integers, fractions, 0.0, \"\", strings, null), reference-server parts, and 2..64 clients in flight at once (one lane = one thread, released "
           "together), and 8..32 clients fetching small static files at once whose extensions are a mix of the server's built-in mime table, .bin and "
           "extensions never served before in the process (several distinct new ones per round); every file response must carry the Content-Type "
